@@ -4,18 +4,24 @@ records which obligations / contract clauses fail. Writes seeded/RESULTS.md and 
 import json, os, subprocess, sys, glob, re
 HERE = os.path.dirname(os.path.abspath(__file__))
 rows = []
-assert not subprocess.run(['git', '-C', '/repo', 'status', '--short'], capture_output=True, text=True).stdout.strip(), '/repo not clean'
+# by default the patches are applied to /repo itself (and reverted); with MATRIX_WT=<dir> a scratch worktree of /repo's
+# HEAD is used instead, so that /repo stays free for other work
+REPO = os.environ.get('MATRIX_WT', '/repo')
+if REPO != '/repo':
+    subprocess.run(['git', '-C', '/repo', 'worktree', 'add', '--detach', REPO, 'HEAD'], check=True, capture_output=True)
+    os.environ['VERIF_REPO'] = REPO
+assert not subprocess.run(['git', '-C', REPO, 'status', '--short'], capture_output=True, text=True).stdout.strip(), 'repo not clean'
 for d in sorted(glob.glob(os.path.join(HERE, 'seeded', '*'))):
     if not os.path.isdir(d):
         continue
     meta = json.load(open(os.path.join(d, 'meta.json')))
     sid, prop = meta['id'], meta['breaks_property']
     props = [prop] + [p for p in sys.argv[1:] if p != prop and False]
-    subprocess.run(['git', '-C', '/repo', 'apply', os.path.join(d, 'patch.diff')], check=True)
+    subprocess.run(['git', '-C', REPO, 'apply', os.path.join(d, 'patch.diff')], check=True)
     try:
         p = subprocess.run([os.path.join(HERE, 'check'), prop], capture_output=True, text=True)
     finally:
-        subprocess.run(['git', '-C', '/repo', 'checkout', '--', '.'], check=True)
+        subprocess.run(['git', '-C', REPO, 'checkout', '--', '.'], check=True)
     failed = sorted(set(re.findall(r'^FAILED: (.*)$', p.stdout, re.M)))
     nviol = len(re.findall(r'^VIOLATION', p.stdout, re.M))
     meta['detected_by'] = dict(check=prop, exit_code=p.returncode, violations=nviol, failed=failed[:12])
@@ -23,6 +29,8 @@ for d in sorted(glob.glob(os.path.join(HERE, 'seeded', '*'))):
     rows.append((sid, prop, p.returncode, nviol, failed))
     print(sid, prop, p.returncode, nviol, failed[:4], flush=True)
 subprocess.run(['rm', '-rf', os.path.join(HERE, 'replays')])
+if REPO != '/repo':
+    subprocess.run(['git', '-C', '/repo', 'worktree', 'remove', '--force', REPO])
 with open(os.path.join(HERE, 'seeded', 'RESULTS.md'), 'w') as f:
     f.write('| seed | property | check exit | VIOLATION lines | failing obligations / clauses |\n|---|---|---|---|---|\n')
     for sid, prop, rc, n, failed in rows:
